@@ -1524,10 +1524,12 @@ class AstEval:
                 else:
                     raise NameError(f"name '{arg1.id}' is not defined")
             elif isinstance(arg1, ast.Attribute):
-                var_name = await self.ast_attribute_collapse(arg1, check_undef=False)
-                if not isinstance(var_name, str):
-                    raise NameError("state name should be 'domain.entity' or 'domain.entity.attr'")
-                State.delete(var_name)
+                var_name = await self.ast_attribute_collapse(arg1)
+                if var_name is None:
+                    # an attribute of an object (del self.x), not a state variable
+                    delattr(await self.aeval(arg1.value), arg1.attr)
+                else:
+                    State.delete(var_name)
             else:
                 raise NotImplementedError(f"unknown target type {arg1} in del")
 
